@@ -688,15 +688,6 @@ def kf_toc_escapes(w: Dict[str, Any]) -> bool:
     return need is not None and "toc" in need
 
 
-def kf_default_role_leaks(w: Dict[str, Any]) -> bool:
-    """The only offence is the bystander rendered differently after a reST-family docstring that sets a default role and
-    then makes the parser crash (docutils' process-wide default role is never reset)."""
-    tr, sc = w.get("trace") or {}, w.get("scenario") or {}
-    return (w.get("failed") == ["Frame"] and tr.get("frame_ok", True) and tr.get("x_same") is False and not frame_offences(tr)
-            and sc.get("fmt") in ("restructuredtext", "google", "numpy") and "default-role::" in sc.get("docA", "")
-            and any(tr["F"][o]["parse"] == "crash" for o in ("A", "B")))
-
-
 def kf_poisoned_cache(w: Dict[str, Any]) -> bool:
     """Python twin of Docstring.tla KF_PoisonedCache: the only offence is a body rendered from the half-built cached
     document of an epytext docstring whose to_node() had failed (unreported) in get_summary / get_toc before."""
@@ -1099,7 +1090,6 @@ def run(ctx: Ctx) -> int:
     rng = random.Random(ctx.seed)
     ctx.register_matcher("format-toc-unguarded", kf_toc_escapes)
     ctx.register_matcher("epytext-half-built-document-cached", kf_poisoned_cache)
-    ctx.register_matcher("rst-default-role-leaks-after-crash", kf_default_role_leaks)
     nproc = max(2, min(NCPU, 16))
     all_traces: List[Dict[str, Any]] = []
 
